@@ -678,7 +678,7 @@ theorem facts_guard :
     Gen.Facts.c09LazyWgDoneSites = some 3 ∧ Gen.Facts.c09LazyWgAddSites = some 1 ∧
     Gen.Facts.c09PipelineUsesEachReservationOnce = some true ∧
     Gen.Facts.c09PipelinePickStopsAtFirstReservation = some true ∧ Gen.Facts.c09PipelineMaxReserveAttempt = some 16 ∧
-    Gen.Facts.c09LimitsComeFromOpts = some true ∧
+    Gen.Facts.c09LimitsComeFromOpts = some true ∧ Gen.Facts.c01AllocSkipsIdsInUse = some true ∧
     Gen.Facts.c09UpstreamPipelineLimits = some [(4096, 4096), (64, 64), (64, 64)] := by decide
 
 /-! ## the limits as `NewUpstream` configures them
